@@ -84,8 +84,13 @@ impl Buf {
     pub(crate) fn ensure_capacity_for(&mut self, bytes: &ReadBuf<'_>, max_buf_size: usize) {
         assert!(self.is_empty());
         let len = cmp::min(bytes.remaining(), max_buf_size);
-        // (tokio uses reserve + unsafe set_len; zero-filling is observably the same)
-        self.buf.resize(len, 0);
+        if self.buf.len() < len {
+            self.buf.reserve(len - self.buf.len());
+        }
+        // as in tokio: the bytes are only ever written by read() before being looked at
+        unsafe {
+            self.buf.set_len(len);
+        }
     }
     pub(crate) fn read_from<T: Read>(&mut self, rd: &mut T) -> io::Result<usize> {
         let res = uninterruptibly!(rd.read(&mut self.buf));
